@@ -33,7 +33,7 @@ def _sub(a, b):
     return [a[k] - b[k] for k in range(3)]
 
 
-def run_tetrahedral(resname, parent, branch, h1_at):
+def run_tetrahedral(resname, parent, branch, h1_at, input_h=False):
     """branch 2: one hydrogen present, add the second.  branch 3: two present,
     add the third; h1_at says where the second existing hydrogen sits relative
     to the first: '+120' or '+240' (exactly, as produced by pdb2pqr itself or
@@ -54,7 +54,12 @@ def run_tetrahedral(resname, parent, branch, h1_at):
     target = hs[2].name
     for h in hs[1:] if branch == 2 else hs[2:]:
         res.remove_atom(h.name)
-    case = {"residue": resname, "parent": parent, "branch": branch, "second_hydrogen_at": h1_at}
+    if input_h:
+        # the hydrogens already present came with the input (a partly protonated structure), not from pdb2pqr
+        for a in res.atoms:
+            if a.is_hydrogen:
+                a.added = 0
+    case = {"residue": resname, "parent": parent, "branch": branch, "second_hydrogen_at": h1_at, "present_hydrogens_from_input": input_h}
     with lemma.Session() as S:
         s3 = S.real("sqrt3half")
         S.assume(s3 > 0)
@@ -230,7 +235,7 @@ def run_tetrahedral(resname, parent, branch, h1_at):
     out["inconclusive"] += res_["inconclusive"]
     out["samples"].append({**case, "goals": [g[0] for g in goals[:3]]})
     if res_["refuted"]:
-        demo = _tetra_demo(resname, parent, branch, h1_at)
+        demo = _tetra_demo(resname, parent, branch, h1_at, input_h)
         lab = res_["refuted"][0]["label"]
         if demo is not None and demo[0]:
             out["violations"].append({"label": "tetrahedral-placement", "values": {**case, "goal": lab}, "note": "", "reproduced": True, "replay_detail": demo[1]})
@@ -239,7 +244,7 @@ def run_tetrahedral(resname, parent, branch, h1_at):
     return out
 
 
-def _tetra_demo(resname, parent, branch, h1_at):
+def _tetra_demo(resname, parent, branch, h1_at, input_h=False):
     """concrete replay: remove hydrogens of the group, let the real code re-add
     them, measure distances"""
     from pdb2pqr import utilities
@@ -259,6 +264,10 @@ def _tetra_demo(resname, parent, branch, h1_at):
         drop = hs[2] if h1_at == "+120" else hs[1]
         target = drop.name
         res.remove_atom(drop.name)
+    if input_h:
+        for a in res.atoms:
+            if a.is_hydrogen:
+                a.added = 0
     res.rebuild_tetrahedral(target)
     new = res.get_atom(target)
     if new is None:
@@ -644,6 +653,8 @@ def obligations(tier):
             variants = [(2, "-"), (3, "+120"), (3, "+240")]
         for br, at in variants:
             obs.append(Obligation(f"tetrahedral-{r}-{p}-branch{br}-{at}", run_tetrahedral, dict(resname=r, parent=p, branch=br, h1_at=at), kind="lemma", group="tetrahedral"))
+            if tier == "thorough" or (r, p) in (("ALA", "CB"), ("LYS", "NZ")):
+                obs.append(Obligation(f"tetrahedral-{r}-{p}-branch{br}-{at}-input-hydrogens", run_tetrahedral, dict(resname=r, parent=p, branch=br, h1_at=at, input_h=True), kind="lemma", group="tetrahedral"))
     for r, posn in (("SER", "internal"), ("GLY", "internal"), ("ASP", "cterm"), ("SER", "nterm")) if tier == "quick" else [(r, p) for r in ("SER", "GLY", "ASP", "CYS") for p in ("nterm", "internal", "cterm")]:
         obs.append(Obligation(f"reference-pairs-{r}-{posn}", h_reference_pairs, dict(resname=r, position=posn), group="reference-pairs", time_cap=1500, max_paths=100000))
     for r in ("ASH", "GLH", "SER", "TYR") if tier == "quick" else ("ASH", "GLH", "SER", "THR", "TYR", "ASN", "GLN", "HIS", "LYS"):
@@ -696,7 +707,7 @@ META = dict(
 )
 
 MANIFEST = dict(
-    text="For C05: the real rebuild_tetrahedral/rotate_tetrahedral on symbolic coordinates (two- and three-bond branches): the added hydrogen has the parent distance and the angle to the parent-next bond of the hydrogen it is rotated from, sits at the free tetrahedral position (never on an existing hydrogen) and the existing atoms end where they started (exact: cos = -1/2, sin^2 = 3/4); every torsion change of the real set_dihedral_angle carries hydrogens with their parents (C04's symbolic classification applied to all bonds with a hydrogen, all coordinates and angles symbolic); the real update_bonds clears the peptide neighbour pointers on both sides of a chain break for every C-N distance, so the three reference atoms of a superposition are never taken across a gap. Water hydrogens through the real pipeline for a water in contact, isolated, or next to another water only (O-H and H-H against the template). Superposition algebra: C15. Round 4: every residue type as first / last residue of a chain (selector) with the same template-distance checks incl. the terminal amine hydrogens, no input heavy atom displaced by hydrogen building; a hydrogen finalised or placed by a donor attempt on an oxygen with two bonds sits at one of the two free tetrahedral positions (site harness of C14). Round 6: the real Optimize.get_position_with_three_bonds returns the one free tetrahedral site for either site of the second substituent and either bond-list order (the three sites tied by the exact 3-cycle of the 120-degree turns, site separation an arbitrary real > 0.1 A).",
+    text="For C05: the real rebuild_tetrahedral/rotate_tetrahedral on symbolic coordinates (two- and three-bond branches): the added hydrogen has the parent distance and the angle to the parent-next bond of the hydrogen it is rotated from, sits at the free tetrahedral position (never on an existing hydrogen) and the existing atoms end where they started (exact: cos = -1/2, sin^2 = 3/4); every torsion change of the real set_dihedral_angle carries hydrogens with their parents (C04's symbolic classification applied to all bonds with a hydrogen, all coordinates and angles symbolic); the real update_bonds clears the peptide neighbour pointers on both sides of a chain break for every C-N distance, so the three reference atoms of a superposition are never taken across a gap. Water hydrogens through the real pipeline for a water in contact, isolated, or next to another water only (O-H and H-H against the template). Superposition algebra: C15. Round 4: every residue type as first / last residue of a chain (selector) with the same template-distance checks incl. the terminal amine hydrogens, no input heavy atom displaced by hydrogen building; a hydrogen finalised or placed by a donor attempt on an oxygen with two bonds sits at one of the two free tetrahedral positions (site harness of C14). Round 6: the tetrahedral completion also with the present hydrogens marked as input atoms (a partly protonated input). The real Optimize.get_position_with_three_bonds returns the one free tetrahedral site for either site of the second substituent and either bond-list order (the three sites tied by the exact 3-cycle of the 120-degree turns, site separation an arbitrary real > 0.1 A).",
     note="Trusted: z3 (two builds), exact reals. Polar hydrogen / lone-pair placement during optimisation is outside. Known findings: N-terminal H2/H3, neutral C-terminal HO and methyl hydrogens on branch atoms are ranked by distance from CA and rotate with a bond they are not attached beyond (known_findings.json).",
     technique="polynomial lemmas over terms from the real code (z3 QF_NRA, two builds) + finite graph condition + symbolic execution",
     design="DESIGN.md section 3 C05",
